@@ -333,6 +333,9 @@ def replay(ctx):
                          moddir, env, 700)
     if "REPLAY-VIOLATION" in out:
         return 1, out
+    if rc not in (0, None) and ("fatal error:" in out or "\npanic:" in out or "SIGSEGV" in out):
+        # the stored case kills the test process again (an unrecoverable runtime error in the code under test)
+        return 1, out
     if rc == 0 and "REPLAY-PASS" in out:
         return 0, out
     return 2, out
